@@ -294,6 +294,12 @@ fn are_more_expressions(args: &[&str], index: usize) -> bool {
     (index < args.len() - 1) && args[index + 1] != ")"
 }
 
+/// Helper function for `build_matcher_tree`: '!' and '-a' must be followed by an
+/// expression, not by another binary operator.
+fn is_binary_operator(arg: &str) -> bool {
+    matches!(arg, "-a" | "-and" | "-o" | "-or" | ",")
+}
+
 fn convert_arg_to_number(
     option_name: &str,
     value_as_string: &str,
@@ -773,7 +779,7 @@ fn build_matcher_tree(
             "-quit" => Some(QuitMatcher.into_box()),
             "-writable" => Some(AccessMatcher::Writable.into_box()),
             "-not" | "!" => {
-                if !are_more_expressions(args, i) {
+                if !are_more_expressions(args, i) || is_binary_operator(args[i + 1]) {
                     return Err(From::from(format!(
                         "expected an expression after {}",
                         args[i]
@@ -783,7 +789,7 @@ fn build_matcher_tree(
                 None
             }
             "-and" | "-a" => {
-                if !are_more_expressions(args, i) {
+                if !are_more_expressions(args, i) || is_binary_operator(args[i + 1]) {
                     return Err(From::from(format!(
                         "expected an expression after {}",
                         args[i]
